@@ -82,7 +82,7 @@ impl Sink {
         w.write_all(b"\n").unwrap();
         self.in_shard += 1;
         self.events += 1;
-        if self.samples.len() < 6 && (self.events % 9973 == 1 || self.events < 3) {
+        if self.samples.len() < 8 && (self.events % 99_991 == 7 || self.events == 2 || self.events == 5003) {
             self.samples.push(s.to_string());
         }
     }
